@@ -873,6 +873,39 @@ func (s *c16Sys) afterImport(x string, resp *logical.Response, makeDefault bool)
 	}
 }
 
+// actConfigRefused sends a config/crl update that validation must refuse; a refused update changes nothing: the
+// configuration read back is what it was, and revocations behave as before (the state machine's model is untouched).
+func (s *c16Sys) actConfigRefused() {
+	before, _ := s.read("config/crl")
+	var data map[string]any
+	switch rapid.IntRange(0, 3).Draw(s.rt, "refusedConfigKind") {
+	case 0:
+		data = map[string]any{"auto_rebuild": true, "auto_rebuild_grace_period": "5000h"} // not shorter than the expiry
+	case 1:
+		data = map[string]any{"auto_rebuild": !s.autoRebuild, "expiry": "not-a-duration"}
+	case 2:
+		if s.autoRebuild {
+			data = map[string]any{"disable": !s.disabled, "ocsp_expiry": "-5h"}
+		} else {
+			data = map[string]any{"auto_rebuild": false, "enable_delta": true} // delta needs auto rebuild
+		}
+	default:
+		data = map[string]any{"auto_rebuild": true, "enable_delta": true, "delta_rebuild_interval": "9000h"}
+	}
+	resp, err := s.write("config/crl", data)
+	refused := err != nil || resp != nil && resp.IsError()
+	s.logf("config/crl %v (invalid) -> refused=%v", data, refused)
+	if !refused {
+		s.violation("invalid-crl-config-accepted", "config/crl %v must be refused but was accepted", data)
+		return
+	}
+	after, _ := s.read("config/crl")
+	if before != nil && after != nil && fmt.Sprint(before.Data) != fmt.Sprint(after.Data) {
+		s.violation("refused-crl-config-changed-configuration", "the refused config/crl update %v changed the configuration: before %v after %v", data, before.Data, after.Data)
+	}
+	s.rec.Class("refused-crl-config-update", 1)
+}
+
 func (s *c16Sys) actConfig() {
 	data := map[string]any{}
 	switch rapid.IntRange(0, 4).Draw(s.rt, "crlConfigKind") {
@@ -1005,6 +1038,7 @@ func c16Run(t *testing.T, rec *verifx.Recorder) {
 			"g-restart":        step(func() { s.restart("requested") }),
 			"h-rotate-fault":   step(func() { s.actRotate(true) }),
 			"i-config-crl":     step(s.actConfig),
+			"i-config-refused": step(s.actConfigRefused),
 			"j-tidy":           step(s.actTidy),
 			"k-default-issuer": step(s.actDefault),
 			"l-periodic":       step(s.actPeriodic),
